@@ -39,8 +39,9 @@ RULE = ("random operation histories (5-40 operations: construction of scalar/vec
         "changed what is read through another")
 ASSUMPTIONS = [
     "numpy view semantics (a basic slice/reshape of an ndarray is a view; np.array(list) allocates) are trusted",
-    "values of valid cells are kept exactly representable (24-bit dyadic) by the generator so that all dtypes compare "
-    "exactly; ghost cells are compared after rounding the model's exact value to the dtype of the real array",
+    "values of valid cells are kept exactly representable (24-bit dyadic) by the generator so that arithmetic in every "
+    "dtype is exact; dtype conversions of whole padded arrays (copy(dtype=), collection arrays) are performed by the "
+    "model as numpy performs them (round to nearest even in single precision, real part for real dtypes)",
     "labels are not modelled; lookup and assignment by label are checked directly against lookup by index",
     "a member field handed to a later FieldCollection(copy_fields=False) is re-linked to that collection "
     "(documented: 'basically impossible to have fields that are linked to multiple collections at the same "
@@ -145,25 +146,6 @@ def exact_list(a):
         else:
             out.append((Fraction(re), Fraction(im)))
     return out
-
-
-def stored_as(dtname, v):
-    """what an array of dtype `dtname` holds after numpy stored the exact value v = (re, im) in it
-    (single precision: rounded to nearest; real dtypes: the imaginary part is discarded); None if
-    that is not finite"""
-    re, im = v
-    if KIND.get(dtname, 2) < 2:
-        im = Fraction(0)
-    if dtname in ("f32", "c64"):
-        try:
-            with np.errstate(all="ignore"):
-                re32, im32 = float(np.float32(float(re))), float(np.float32(float(im)))
-        except OverflowError:
-            return None
-        if not (np.isfinite(re32) and np.isfinite(im32)):
-            return None
-        re, im = Fraction(re32), Fraction(im32)
-    return (re, im)
 
 
 def nice(a, target=None):
@@ -704,7 +686,8 @@ class World:
         looked at: cells nobody ever wrote hold whatever `np.empty` found in memory, and a decision that
         depends on them makes the generated history (and the replay of a recorded one) depend on the
         state of the allocator.  Ghost cells that were written (boundary conditions, `_data_full`) are
-        compared after rounding the model's value to the dtype of the real array (`compare`)."""
+        converted by the model as numpy converts them (`DCast`: rounding to single precision, real
+        part), so they compare exactly whatever they hold."""
         src = self.dtn(i)
         if src not in KIND:
             return False
@@ -1921,17 +1904,11 @@ def compare(w, answer):
                 if mv != rv:
                     return {"step": t, "what": f"{key} of handle {i} after {opname}", "model": mv, "impl": rv}
             rv = exact_list(r["vals"])
-            mask = None if e["cls"] == "raw" or e["grid"] is None else w.masks[e["grid"]]
             for p, (a, b) in enumerate(zip(e["vals"], rv)):
                 a = dec(a)
-                if a is None or a == b:
-                    continue
-                # valid cells: exact (the generator keeps them exactly representable in every dtype).
-                # ghost cells: the exact value the model holds, stored in an array of the real dtype
-                if mask is not None and not mask[p % len(mask)] and stored_as(r["dt"], a) == b:
-                    continue
-                return {"step": t, "what": f"value read through handle {i} ({e['cls']}) at padded position {p} after {opname}",
-                        "model": str(a), "impl": str(b)}
+                if a is not None and a != b:
+                    return {"step": t, "what": f"value read through handle {i} ({e['cls']}) at padded position {p} after {opname}",
+                            "model": str(a), "impl": str(b)}
         lab, seen = [], {}
         for i in range(rec["n"]):
             lab.append(seen.setdefault(cur_model[i]["buf"], i))
